@@ -74,16 +74,41 @@ type Config struct {
 	Filter   string `json:"filter"` // "" | Flate | ASCIIHex+Flate
 	NumMap   int    `json:"nummap"` // how model object numbers become real ones
 	FixedID  bool   `json:"fixedid"`
+	Pw       int    `json:"pw"` // revision 6: which pair of r6Passwords (0: the short ones)
 }
 
 func (c Config) passwords() (string, string) {
+	user, owner := "u-secret", "o-secret"
+	// revision 6: passwords around the 127 byte limit of Algorithm 2.A
+	if c.Version >= "2.0" && c.Pw > 0 {
+		user = r6Passwords[c.Pw%len(r6Passwords)]
+		owner = r6Passwords[(c.Pw+3)%len(r6Passwords)]
+	}
 	switch c.Enc {
 	case "user":
-		return "u-secret", ""
+		return user, ""
 	case "owner":
-		return "", "o-secret"
+		return "", owner
 	}
-	return "u-secret", "o-secret"
+	return user, owner
+}
+
+var digits126 = strings.Repeat("0123456789", 13)[:126]
+
+// r6Passwords: the preparation of revision 6 is SASLprep, UTF-8, then a cut
+// at exactly 127 bytes - also in the middle of a character.
+var r6Passwords = []string{
+	"plain",
+	digits126 + "\u00e9",                    // 128 bytes, the cut falls inside the last character
+	digits126[:125] + "\u00e9",              // exactly 127 bytes
+	digits126 + "7\u00e9",                   // the character starts at byte 128
+	strings.Repeat("\u20ac", 42) + "\u00e9", // 42 x 3 bytes, then a 2 byte character over the limit
+	digits126 + "\u00e9 and a long tail",
+	strings.Repeat("long ascii password ", 10),  // 200 bytes
+	strings.Repeat("\uff41", 40) + "0123456789", // 130 bytes before, 50 after SASLprep
+	strings.Repeat("\u00e4", 63) + "xZ",         // 126 bytes of two byte characters, then two more
+	digits126[:124] + "\u20ac",                  // 3 byte character ending exactly at byte 127
+	digits126[:125] + "\u20ac",                  // 3 byte character cut after two bytes
 }
 
 func (c Config) cipher() string {
